@@ -270,8 +270,8 @@ theorem K_step {s : State} {x : Ext} (hk : K s x) (hj : J s x) (hi : Inv s) (op 
          rcases he with he | rfl
          · exact Or.inl he
          · exact Or.inr rfl)
-  | incFee id who t add =>
-    have hd := (next_incFee_fields x s id who t add).2.2.2.2
+  | incFee id who t add evm =>
+    have hd := (next_incFee_fields x s id who t add evm).2.2.2.2
     simp only [step]; unfold doIncFee
     repeat' split
     all_goals exact K_frame hk rfl rfl rfl (Nat.le_refl _) hd (fun e he => Or.inl he)
